@@ -110,5 +110,7 @@ else:
         },
         "check_results": old.get("check_results", []),
     }
+    if old.get("history"):
+        meta["history"] = old["history"]
     json.dump(meta, open(os.path.join(dst, "meta.json"), "w"), indent=1)
     table()
